@@ -12,4 +12,5 @@ INVARIANTS
   GatherIdentity GatherElementsVsScatter GatherNDFullIndexIsElement PadThenCrop PadModesOn1D
   ReduceAllIsFold ReduceAxisByAxis CumSumLastIsReduceSum ArgMaxVsTopK ElementwiseLaws
   GeneratorLaws DepthToSpaceLaws DispatcherDefaults
+  MatMulLaws ConvPoolLaws ResizeLaws MiscLaws EinsumLaws
 CHECK_DEADLOCK FALSE
